@@ -210,8 +210,44 @@ pub fn make_reply(ctx: &FinalCtx, class: usize, sub: u64, r: &mut Rng) -> Option
         }
         "key-plus-k" => {
             let ks: [i128; 20] = [0, 2, -1, 255, 256, 257, 1 << 64, -256, 3, 65536, 1 << 32, 0x0100_0000_0000_0001, -255, -254, -65535, 65537, 65281, -65279, 513, 1 - (1 << 24)];
-            if sub as usize >= ks.len() + 4 {
+            if sub as usize >= ks.len() + 4 + 6 {
                 return None;
+            }
+            if sub as usize >= ks.len() + 4 {
+                // offsets that do not fit a machine integer: the key read at the other end (big-endian + 1), and one added
+                // at a single byte position in the middle, next to either end, or chosen at random
+                let n = key.len();
+                let mut k = key.clone();
+                match sub as usize - ks.len() - 4 {
+                    0 => {
+                        // big-endian increment with carry
+                        for i in (0..n).rev() {
+                            k[i] = k[i].wrapping_add(1);
+                            if k[i] != 0 {
+                                break;
+                            }
+                        }
+                    }
+                    1 => {
+                        for i in (0..n).rev() {
+                            k[i] = k[i].wrapping_sub(1);
+                            if k[i] != 0xff {
+                                break;
+                            }
+                        }
+                    }
+                    2 => k[n / 2] = k[n / 2].wrapping_add(1),
+                    3 => k[n - 2] = k[n - 2].wrapping_add(1),
+                    4 => k[1] = k[1].wrapping_add(1),
+                    _ => {
+                        let i = 1 + r.below(n as u64 - 1) as usize;
+                        k[i] = k[i].wrapping_add(1);
+                    }
+                }
+                if k == cssp::le_increment(key) {
+                    return None;
+                }
+                return send(ts(ctx.ts_version, seal_with(sk, &k)));
             }
             let d = if (sub as usize) < ks.len() { ks[sub as usize] } else { (r.next() >> 1) as i128 + 2 };
             send(ts(ctx.ts_version, seal_with(sk, &add_le(key, d))))
